@@ -114,6 +114,36 @@ fn cstring_clone<const N: usize>(ctor: u8) {
     drop(c2);
 }
 
+/// `clone_from` (whatever its implementation) leaves a well-formed copy of the source: content, one
+/// terminating NUL, and a buffer that is later freed with the size it was allocated with.
+fn cstring_clone_from<const N: usize>() {
+    let a: [u8; N] = nd::any();
+    let la = nd::range(0, N);
+    let b: [u8; N] = nd::any();
+    let lb = nd::range(0, N);
+    nd::assume(ref_utf8(&a[..la]) && ref_utf8(&b[..lb]));
+    let na = nul_prefix_len(&a[..la]);
+    let nb = nul_prefix_len(&b[..lb]);
+    nd::cover!(nb < na && nb > 0, "shorter source into a longer destination");
+    nd::cover!(nb > na, "longer source");
+    let mut dst = build(0, &a[..la]);
+    let src = build(2, &b[..lb]);
+    dst.clone_from(&src);
+    assert!(dst == src);
+    let r: &str = dst.as_ref();
+    assert!(r.len() == nb);
+    let p = raw_ptr(&dst);
+    assert!(p != raw_ptr(&src));
+    let mut i = 0;
+    while i < nb {
+        assert!(unsafe { *p.add(i) } == b[i]);
+        i += 1;
+    }
+    assert!(unsafe { *p.add(nb) } == 0);
+    drop(src);
+    drop(dst);
+}
+
 /// Equality and hashing are by content: two independently chosen inputs compare equal exactly
 /// when their NUL-prefixes are equal, equal strings hash equally, and the hash is that of the
 /// prefix `str`.
@@ -189,6 +219,8 @@ nd::harnesses! {
     #[kani::unwind(8)] fn c14_from_bytes_4() { cstring_wellformed::<4>(2) }
     #[kani::unwind(6)] fn c14_clone_2() { cstring_clone::<2>(0) }
     #[kani::unwind(7)] fn c14_clone_3() { cstring_clone::<3>(2) }
+    #[kani::unwind(6)] fn c14_clone_from_2() { cstring_clone_from::<2>() }
+    #[kani::unwind(7)] fn c14_clone_from_3() { cstring_clone_from::<3>() }
     #[kani::unwind(6)] fn c14_eq_hash_str_2() { cstring_eq_hash::<2>(0, 0) }
     #[kani::unwind(6)] fn c14_eq_hash_mixed_2() { cstring_eq_hash::<2>(0, 2) }
     #[kani::unwind(7)] fn c14_eq_hash_str_3() { cstring_eq_hash::<3>(0, 0) }
